@@ -598,7 +598,10 @@ func (sw *SessionWindow) handleLateData(row types.Row) bool {
 	// triggeredSessions is keyed by session key: only the row's own key may absorb it.
 	key := extractSessionCompositeKey(row.Data, sw.config.GroupByKeys)
 	if info, ok := sw.triggeredSessions[key]; ok {
-		if info.session.slot.Contains(row.Timestamp) {
+		// still inside the allowance at the CURRENT watermark (closeExpiredSessions only prunes when
+		// the trigger goroutine runs; a burst can leave an expired entry behind)
+		open := sw.watermark == nil || sw.watermark.GetCurrentWatermark().Before(info.closeTime)
+		if open && info.session.slot.Contains(row.Timestamp) {
 			// Append the late event before re-emitting so the update includes it.
 			info.session.data = append(info.session.data, row)
 			sw.triggerLateUpdateLocked(info.session)
